@@ -30,7 +30,7 @@ ALL_OPT_SETS = [{k: v for k, v in (("allow_key_edits", a), ("auto_match_keys", b
 
 SCALARS = [0, 1, 2, 10, 12, -1, -2, "a", "ab", "abc", "abd", "xbc", "", True, False, None, 1.5, 2.25,
            "hello world", "hello wrld", "1", "True", "None", "0", " "]
-KEYS = ["a", "b", "c", "d", "ab", "ac", "zz", "", "k1", "key5"]
+KEYS = ["a", "b", "c", "d", "ab", "ac", "zz", "", "k1", "key5", "Id", "ID", "id", "B", "\u00e9", "Z"]
 
 
 # ------------------------------------------------------------------------------------------------ generation
